@@ -613,7 +613,11 @@ impl State {
                     let mut dummy = PathBuf::from(p_path);
                     dummy.set_extension("ShortLivingTempFileForReOpen");
                     *file = Box::new(OpenOptions::new().create(true).append(true).open(&dummy)?);
-                    remove_file(&dummy)?;
+                    // (after an earlier re-open that failed completely, the temporary file
+                    // is in use and holds log lines: then it must stay)
+                    if std::fs::metadata(&dummy).is_ok_and(|md| md.len() == 0) {
+                        remove_file(&dummy)?;
+                    }
 
                     match OpenOptions::new().create(true).append(true).open(p_path) {
                         Ok(f) => *file = Box::new(f),
